@@ -258,3 +258,43 @@ def rule_idle_reset(prog):
 
 def run_all(prog):
     return [rule_single(prog), rule_once(prog), rule_rearm(prog), rule_set_identity(prog), rule_idle_reset(prog)]
+
+
+def rule_toggle_queued(prog):
+    """R-VK-TOGGLE-QUEUED (C18): toggle decides on the state the key *will* have, not only on the state it has.
+
+    press / release / toggle of a virtual key only queue an event; `Layout.states` shows the effect one or more ticks
+    later. A toggle that looks at `states` alone repeats the previous decision for every operation requested before the
+    queue has drained: two toggles in the same millisecond both press (and the parity is lost for good). Rule: in
+    handle_fakekey_action the choice between Press and Release in the Toggle arm depends (control dependence of the two
+    `Layout::event` calls) on a look at the pending events (`Layout::last_queued_event`) as well as on the states."""
+    from kq.analysis import dependence_slice
+    res = RuleResult("R-VK-TOGGLE-QUEUED", "toggle-vkey takes queued operations on the key into account", floor=1)
+    fs = [f for f in prog.fns.values() if f.norm.endswith("kanata::handle_fakekey_action") and f.crate == "kanata_state_machine"]
+    if not fs:
+        res.viol("anchor", "src/kanata/mod.rs", "handle_fakekey_action not found")
+        return res
+    f = fs[0]
+    res.fn(f)
+    sws = discr_switches(prog, f, "kanata_parser::custom_action::FakeKeyAction")
+    if not sws or sws[0].target("Toggle") is None:
+        res.viol("anchor/toggle", f.loc, "the Toggle arm of handle_fakekey_action was not found")
+        return res
+    region = sws[0].arm_region("Toggle")
+    evs = [b for b in region if f.term(b)["k"] == "call" and (callee_name(f.term(b)) or "").endswith("Layout::<'a, C, R, T>::event")
+           or (b in region and f.term(b)["k"] == "call" and (callee_name(f.term(b)) or "").split("::")[-1] == "event")]
+    callees = set()
+    for b in evs:
+        callees |= dependence_slice(f, b)[1]
+    looks_states = any(c.endswith("states_has_coord") for c in callees)
+    looks_queue = any(c.split("::")[-1] == "last_queued_event" for c in callees)
+    ok = len(evs) >= 2 and looks_states and looks_queue
+    res.inst("toggle-decision", where=f.loc, event_calls=len(evs), looks_at_states=looks_states, looks_at_queued_events=looks_queue, ok=ok)
+    res.oblige(ok)
+    if not ok:
+        res.viol("toggle-decision", f.loc,
+                 "the Toggle arm of handle_fakekey_action chooses between press and release %s: an operation on the key that is still "
+                 "queued is not seen, so two toggles requested before the next tick (two keys in the same millisecond, two TCP messages, "
+                 "`(multi (on-press toggle-vkey k) (on-release toggle-vkey k))` tapped quickly) both press and the key stays down"
+                 % ("without looking at the pending events (Layout::last_queued_event)" if looks_states else "without looking at the key's state"))
+    return res
